@@ -57,7 +57,7 @@ pub open spec fn is_stable_time_sort_of(out: Seq<Rec>, inp: Seq<Rec>) -> bool {
 pub open spec fn has_commit(s: Seq<Rec>, c: Seq<u8>) -> bool {
     exists|i: int| 0 <= i < s.len() && #[trigger] s[i].commit == c
 }
-pub open spec fn commit_set(s: Seq<Rec>) -> Set<Seq<u8>> { Set::new(|c: Seq<u8>| has_commit(s, c)) }
+pub open spec fn commit_set(s: Seq<Rec>) -> ISet<Seq<u8>> { ISet::new(|c: Seq<u8>| has_commit(s, c)) }
 /// how many rows of `s` carry commit `c`
 pub open spec fn cnt(s: Seq<Rec>, c: Seq<u8>) -> nat
     decreases s.len(),
@@ -65,7 +65,7 @@ pub open spec fn cnt(s: Seq<Rec>, c: Seq<u8>) -> nat
     if s.len() == 0 { 0 } else { cnt(s.drop_last(), c) + (if s.last().commit == c { 1nat } else { 0nat }) }
 }
 pub open spec fn no_dup(s: Seq<Rec>) -> bool {
-    forall|i: int, j: int| 0 <= i < j < s.len() ==> s[i].commit != s[j].commit
+    forall|i: int, j: int| #![auto] 0 <= i < j < s.len() ==> s[i].commit != s[j].commit
 }
 /// C05 "every event committed on any device since that ancestor is present
 /// exactly once in the converged log (byte-identical events made independently
@@ -101,7 +101,7 @@ pub proof fn lemma_cnt_no_dup(s: Seq<Rec>, c: Seq<u8>)
     if s.len() > 0 {
         let d = s.drop_last();
         assert(no_dup(d)) by {
-            assert forall|i: int, j: int| 0 <= i < j < d.len() implies d[i].commit != d[j].commit by {
+            assert forall|i: int, j: int| #![auto] 0 <= i < j < d.len() implies d[i].commit != d[j].commit by {
                 assert(s[i].commit != s[j].commit);
             }
         }
@@ -148,7 +148,7 @@ pub proof fn lemma_cnt_multiset(a: Seq<Rec>, b: Seq<Rec>, c: Seq<u8>)
         assert(a2.to_multiset() =~= a.to_multiset().remove(x)) by {
             assert(a2.push(x).to_multiset() =~= a2.to_multiset().insert(x));
         }
-        b.to_multiset_remove(k);
+        vstd::seq_lib::to_multiset_remove(b, k);
         assert(b2.to_multiset() =~= b.to_multiset().remove(x));
         lemma_cnt_multiset(a2, b2, c);
         // cnt(b) == cnt(b2) + [x.commit == c]
@@ -164,6 +164,20 @@ pub proof fn lemma_cnt_multiset(a: Seq<Rec>, b: Seq<Rec>, c: Seq<u8>)
     }
 }
 
+/// D18 as a theorem: when a commit is present on both sides (each side without
+/// duplicates), ANY permutation of `l ++ r` — in particular the stable time sort
+/// `merge_patches` returns in the non-subset case — holds it twice, so
+/// [merge_is_union] cannot hold there.
+pub proof fn lemma_D18_duplicate(m: Seq<Rec>, l: Seq<Rec>, r: Seq<Rec>, c: Seq<u8>)
+    requires no_dup(l), no_dup(r), has_commit(l, c), has_commit(r, c), m.to_multiset() == (l + r).to_multiset(),
+    ensures cnt(m, c) == 2, !is_commit_union(m, l, r),
+{
+    lemma_cnt_multiset(m, l + r, c);
+    lemma_cnt_concat(l, r, c);
+    lemma_cnt_no_dup(l, c);
+    lemma_cnt_no_dup(r, c);
+}
+
 /// the row vector of a concatenation
 pub proof fn lemma_rv_concat(a: Seq<EventRecord>, b: Seq<EventRecord>)
     ensures rv(a + b) == rv(a) + rv(b),
@@ -177,7 +191,7 @@ pub proof fn lemma_rv_concat(a: Seq<EventRecord>, b: Seq<EventRecord>)
 pub open spec fn is_last_pos(s: Seq<Rec>, c: Seq<u8>, k: int) -> bool {
     &&& 0 <= k < s.len()
     &&& s[k].commit == c
-    &&& forall|j: int| k < j < s.len() ==> s[j].commit != c
+    &&& forall|j: int| #![auto] k < j < s.len() ==> s[j].commit != c
 }
 pub proof fn lemma_last_pos_unique(s: Seq<Rec>, c: Seq<u8>, k1: int, k2: int)
     requires is_last_pos(s, c, k1), is_last_pos(s, c, k2),
